@@ -1313,6 +1313,157 @@ def r16_12(rep: Report) -> None:
     rep.extra['read_until_loops'] = n
 
 
+_WIDE_FORMATS = {'I', 'i', 'Q', 'q', 'L', 'l'}
+
+
+def _read_width(e: ast.AST) -> int | None:
+    """bit width of the integer a reading expression yields, None if `e` is not recognised as a read:
+    struct.unpack('>I', src.read(4))[0], r.get('I', ..), r.get(16, ..) of a bit reader"""
+    if isinstance(e, ast.Subscript):
+        e = e.value
+    if not isinstance(e, ast.Call):
+        return None
+    cn = call_name(e) or ''
+    if cn == 'struct.unpack' and e.args and isinstance(e.args[0], ast.Constant) and isinstance(e.args[0].value, str):
+        fmt = e.args[0].value.lstrip('<>!=@')
+        return {'B': 8, 'b': 8, 'H': 16, 'h': 16, 'I': 32, 'i': 32, 'L': 32, 'l': 32, 'Q': 64, 'q': 64}.get(fmt[-1:] if fmt else '')
+    if isinstance(e.func, ast.Attribute) and e.func.attr in ('get', 'read') and e.args:
+        a0 = e.args[0]
+        if isinstance(a0, ast.Constant) and isinstance(a0.value, str):
+            return {'B': 8, 'H': 16, 'I': 32, 'i': 32, 'Q': 64, '3I': 24}.get(a0.value)
+        if isinstance(a0, ast.Constant) and isinstance(a0.value, int):
+            return a0.value              # bits (bit reader) - or a byte count of a raw read, which is no integer
+    return None
+
+
+def _fails_at_eof(call: ast.Call) -> bool:
+    """a read that raises when the input has ended (so that a loop around it stops): struct.unpack of a read,
+    a typed FieldReader get/read ('B', 'H', 'I', 'Q', '3I', 'S0'), any read of a bit reader.  A raw
+    `src.read(n)` / `r.get(<n bytes>)` returns short data silently."""
+    cn = call_name(call) or ''
+    if cn == 'struct.unpack' and any(isinstance(x, ast.Call) and (call_name(x) or '').endswith('.read') for x in ast.walk(call)):
+        return True
+    if cn == 'ord' and any(isinstance(x, ast.Call) and (call_name(x) or '').endswith('.read') for x in ast.walk(call)):
+        return True
+    if isinstance(call.func, ast.Attribute) and call.func.attr in ('get', 'read') and call.args \
+            and isinstance(call.args[0], ast.Constant) and isinstance(call.args[0].value, str):
+        return True
+    return False
+
+
+def r16_13(rep: Report, idx: Index) -> None:
+    """R16.13  a parser loop whose trip count is a 32 / 64 bit number read from the input reads, on every path of
+    its body, something whose read fails at end of input - so an inflated count (a flipped bit, a size-field
+    edit) runs into the end of the data instead of running 2^32 times on nothing.  A body that can pass
+    without such a read (every per-item field optional, a raw read that returns short data silently)
+    turns a 100-byte upload into hours of CPU and gigabytes of list.  Counts of at most 16 bits are bounded
+    and not judged; bit readers are built over a buffer of the box's size and fail at its end."""
+    rid = 'R16.13'
+    n = 0
+    parsers = {}
+    # premise, re-read on every run: does FieldReader.get(<n bytes>) raise on a short read?
+    raw_get_fails = False
+    frt = rep.repo.tree('dashlive/utils/fio/field_reader.py')
+    fr_get = find_func(find_class(frt, 'FieldReader') or frt, 'get', raw=True) if find_class(frt, 'FieldReader') else None
+    if fr_get is not None:
+        for br in ast.walk(fr_get):
+            if isinstance(br, ast.If) and 'isinstance(size' in norm(br.test):
+                for inner in ast.walk(br):
+                    if isinstance(inner, ast.If) and 'len(' in norm(inner.test) and any(isinstance(x, ast.Raise) for x in inner.body):
+                        raw_get_fails = True
+    rep.extra['FieldReader.get(<n bytes>) raises on a short read'] = raw_get_fails
+    for rel in [r_ for r_ in rep.repo.py_files('dashlive/mpeg') + rep.repo.py_files('dashlive/scte35')]:
+        tree = rep.repo.tree(rel)
+        for cls in [c for c in ast.walk(tree) if isinstance(c, ast.ClassDef)]:
+            for m in cls.body:
+                if isinstance(m, ast.FunctionDef) and m.name == 'parse':
+                    parsers[cls.name] = (rel, cls, m)
+
+    def bit_reader_names(fn: ast.FunctionDef) -> set[str]:
+        return {t.id for a in ast.walk(fn) if isinstance(a, ast.Assign) and isinstance(a.value, ast.Call)
+                and (call_name(a.value) or '').endswith('BitsFieldReader') for t in a.targets if isinstance(t, ast.Name)}
+
+    def must_fail_at_eof(stmts: list[ast.stmt], fn: ast.FunctionDef, depth: int = 0) -> bool:
+        """every path through `stmts` performs a read that raises at end of input"""
+        bits = bit_reader_names(fn) | {a.arg for a in fn.args.args if a.arg in ('r', 'reader', 'bits')}
+        for st in stmts:
+            if isinstance(st, ast.If):
+                if must_fail_at_eof(st.body, fn, depth) and st.orelse and must_fail_at_eof(st.orelse, fn, depth):
+                    return True
+                # the test itself may read
+                if any(isinstance(c, ast.Call) and _fails_at_eof(c) for c in ast.walk(st.test)):
+                    return True
+                continue
+            if isinstance(st, (ast.For, ast.While)):
+                continue                    # may run zero times
+            if isinstance(st, (ast.Try, ast.With)):
+                if must_fail_at_eof(st.body, fn, depth):
+                    return True
+                continue
+            for c in ast.walk(st):
+                if not isinstance(c, ast.Call):
+                    continue
+                if _fails_at_eof(c):
+                    return True
+                if raw_get_fails and isinstance(c.func, ast.Attribute) and c.func.attr in ('get', 'read') and c.args \
+                        and isinstance(c.func.value, ast.Name) and c.func.value.id not in ('src', 'self') \
+                        and not (isinstance(c.args[0], ast.Constant) and c.args[0].value == 0):
+                    return True             # a FieldReader: also its raw byte reads fail when short
+                if isinstance(c.func, ast.Attribute) and c.func.attr in ('get', 'read', 'get_bytes', 'read_bytes') \
+                        and isinstance(c.func.value, ast.Name) and c.func.value.id in bits and c.args \
+                        and not (isinstance(c.args[0], ast.Constant) and c.args[0].value == 0):
+                    return True
+                # a nested parser
+                if isinstance(c.func, ast.Attribute) and c.func.attr == 'parse' and isinstance(c.func.value, ast.Name) \
+                        and c.func.value.id in parsers and depth < 2:
+                    _rel, _cls, m = parsers[c.func.value.id]
+                    if must_fail_at_eof(m.body, m, depth + 1):
+                        return True
+        return False
+    for cname, (rel, cls, fn) in sorted(parsers.items()):
+        for loop in [x for x in ast.walk(fn) if isinstance(x, ast.For)]:
+            it = loop.iter
+            if not (isinstance(it, ast.Call) and call_name(it) == 'range' and it.args):
+                continue
+            count = it.args[-1] if len(it.args) <= 2 else it.args[1]
+            ctext = norm(count)
+            defs = [a.value for a in ast.walk(fn) if isinstance(a, (ast.Assign, ast.AnnAssign)) and getattr(a, 'value', None) is not None
+                    and norm(a.targets[0] if isinstance(a, ast.Assign) else a.target) == ctext]
+            width = None
+            for d in defs:
+                w = _read_width(d)
+                if w is not None:
+                    width = max(width or 0, w)
+                elif isinstance(d, ast.Name):
+                    for d2 in [a.value for a in ast.walk(fn) if isinstance(a, ast.Assign) and norm(a.targets[0]) == d.id]:
+                        w2 = _read_width(d2)
+                        if w2 is not None:
+                            width = max(width or 0, w2)
+            if width is None:
+                # rv['count'] filled by r.read('I', 'count')
+                m_ = re.fullmatch(r"\w+\['(\w+)'\]", ctext)
+                if m_:
+                    for c in ast.walk(fn):
+                        if isinstance(c, ast.Call) and isinstance(c.func, ast.Attribute) and c.func.attr == 'read' \
+                                and len(c.args) >= 2 and isinstance(c.args[1], ast.Constant) and c.args[1].value == m_.group(1):
+                            width = _read_width(c)
+            if width is None or width <= 16:
+                continue
+            n += 1
+            construct = f'{rel}::{cname}.parse'
+            cname_ = re.findall(r'\w+', ctext)[-1] if re.findall(r'\w+', ctext) else ctext      # rv['sample_count'] and sample_count are one count
+            key = f'for .. in range({cname_}) consumes input'
+            if must_fail_at_eof(loop.body, fn):
+                rep.ok(rid, construct, key, f'{width}-bit count; every path of the body reads something that fails at end of input')
+            else:
+                rep.fail(rid, construct, key,
+                         f'the trip count `{ctext}` is a {width}-bit number read from the input and a path through the loop '
+                         'body reads nothing that fails at end of input (optional per-item fields, or a raw read that '
+                         'returns short data silently): an inflated count runs up to 2^32 iterations on no data - hours '
+                         'of CPU and gigabytes of list from a file of a few hundred bytes', loop)
+    rep.extra['count_driven_parser_loops'] = n
+
+
 def analyse(rep: Report) -> None:
     rep.explanation = (
         'Interprocedural exception-escape analysis from every routed (handler, verb) entry point '
@@ -1337,6 +1488,7 @@ def analyse(rep: Report) -> None:
     rep.rule('R16.11', 'attributes the manifest templates read unguarded exist on every path of ManifestContext.__init__', floor=10)
     rep.rule('R16.9', 'session values are stored in the type their readers compute with', floor=1)
     rep.rule('R16.12', 'loops that read until a sentinel end at the end of the input', floor=1)
+    rep.rule('R16.13', 'parser loops driven by a 32-bit count from the input consume input that fails at its end', floor=3)
     idx = Index(rep.repo)
     cg = CallGraph(idx)
     validated_ok = r16_8(rep, idx)
@@ -1350,6 +1502,7 @@ def analyse(rep: Report) -> None:
     r16_10(rep, idx)
     r16_11(rep)
     r16_12(rep)
+    r16_13(rep, idx)
     rep.assumptions = [
         'call edges are the resolved ones (CHA, typed locals, proxies); template calls are added '
         'for the three timeline generators; unresolved dynamic calls propagate nothing',
